@@ -20,7 +20,8 @@ RULE = ('router: histories of add-rule / remove-rule / deliver-message on Messag
         'client: the same through DBusClientConnection.addMatch/delMatch on an in-memory connection - the AddMatch / '
         'RemoveMatch calls are captured, their rule text parsed by the reference match-rule parser must express exactly the '
         'requested constraints, delivery goes through real signal messages. proxy: RemoteDBusObject.notifyOnSignal / '
-        'cancelSignalNotification with matching and mismatching signal signatures. busrule: the rule text given to '
+        'cancelSignalNotification with matching and mismatching signal signatures, optionally next to a second connection '
+        'of the same process whose proxy holds and cancels subscriptions with the same rule ids. busrule: the rule text given to '
         'Bus.dbus_AddMatch and then matched by the bus router. Non-trivial = a near-miss on exactly one key, a '
         'prefix-sharing sibling path, or a removal between two deliveries; distinct = distinct case JSON.')
 ASSUMPTIONS = ['sender and arg0namespace are not in the statement and are never constrained',
@@ -32,7 +33,7 @@ NAMESPACES = ['/a/b', '/a', '/', '/a/bc', '/x/y']
 IFACES = ['org.verif.A', 'org.verif.B', 'org.verif.AB']
 MEMBERS = ['Sig', 'Sig2', 'Si']
 DESTS = [':1.5', 'org.verif.D', ':1.6']
-ARGVALS = ['x', 'y', '', '/a/', '/a/b', '/a/b/', '/a/bc', '/a', 'xy']
+ARGVALS = ['x', 'y', '', '/a/', '/a/b', '/a/b/', '/a/bc', '/a', 'xy', '1', '2']    # '1', '2': the text of integer arguments
 TYPES = ['signal', 'method_call', 'method_return', 'error']
 
 
@@ -207,7 +208,7 @@ def rule(draw):
     k = draw(st.integers(0, 4))
     used = set()
     if k in (0, 2):
-        r['args'] = [[draw(st.sampled_from([0, 0, 1, 2, 10, 11])), draw(st.sampled_from(ARGVALS))]]
+        r['args'] = [[draw(st.sampled_from([0, 0, 1, 2, 10, 11])), draw(st.sampled_from(ARGVALS + ['1', '2', '1']))]]
         if draw(st.integers(0, 3)) == 0:
             r['args'].append([(r['args'][0][0] + 1) % 12, draw(st.sampled_from(ARGVALS))])
         used = {i for i, _ in r['args']}
@@ -269,12 +270,14 @@ def message_near(draw, r, types):
         m['destination'] = draw(st.sampled_from(DESTS + [None]))
     elif k is not None:
         i = int(k[4:])
-        how = draw(st.sampled_from(['value', 'value', 'value', 'int', 'short']))
+        how = draw(st.sampled_from(['int', 'int', 'value', 'short'] if want[i][1].isdigit() else
+                                   ['value', 'value', 'value', 'int', 'short']))
         if how == 'value':
             trees[i] = draw(st.sampled_from(ARGVALS))
         elif how == 'int':
+            # an integer where the rule wants a string - if possible the integer whose text IS that string
             sig = sig[:i] + 'i' + sig[i + 1:]
-            trees[i] = 1
+            trees[i] = int(want[i][1]) if want[i][1].isdigit() else 1
         else:
             sig, trees = sig[:i], trees[:i]
     m['sig'], m['trees'] = sig, trees
@@ -432,6 +435,7 @@ def run_client(case):
 
 def run_proxy(case):
     from txdbus import interface as I
+    rig2 = None
     try:
         rig = N.ClientRig(unix=False)
     except N.RigFailure as e:
@@ -445,8 +449,33 @@ def run_proxy(case):
         rig.conn.getRemoteObject('org.verif.Peer', case['path'], [ia, ib]).addBoth(res.append)
         prox = res[0]
         rig.sent_messages()
+        shadow = []
+        if case.get('shadow'):
+            # a second connection of the same process subscribes through its own proxy (its rule ids start at the same
+            # number); what it does with its subscriptions is no business of the first connection's
+            rig2 = N.ClientRig(unix=False)
+            res2 = []
+            rig2.conn.getRemoteObject('org.verif.Peer', case['path'], [ia, ib]).addBoth(res2.append)
+            prox2 = res2[0]
+            rig2.sent_messages()
+            for k in range(3):
+                name2 = sorted(sigs['org.verif.A'])[k % len(sigs['org.verif.A'])]
+                r2 = []
+                prox2.notifyOnSignal(name2, lambda *a: None, interface='org.verif.A').addBoth(r2.append)
+                sent2 = [m for kk, m in rig2.sent_messages() if kk == 'msg']
+                if sent2:
+                    N.deliver(rig2.conn, R.encode_message(2, 600 + k, {5: sent2[0]['serial']}))
+                if r2 and not hasattr(r2[0], 'check'):
+                    shadow.append(r2[0])
         subs = {}   # sub index -> dict
         for opi, op in enumerate(case['ops']):
+            if op[0] == 'unsub' and shadow:
+                for rid in shadow:
+                    prox2.cancelSignalNotification(rid)
+                    for kk, m in rig2.sent_messages():
+                        if kk == 'msg':
+                            N.deliver(rig2.conn, R.encode_message(2, 650, {5: m['serial']}))
+                shadow = []
             if op[0] == 'sub':
                 name = op[1]
                 iface = op[2]
@@ -508,6 +537,8 @@ def run_proxy(case):
     except Exception as e:
         out.append(Disc(exc_key(e, 'proxy.exception'), exc_detail(e)))
     finally:
+        if rig2 is not None:
+            rig2.close_rig()
         rig.close_rig()
     return out
 
@@ -533,7 +564,7 @@ def proxy_case(draw, tier):
             trees = [draw(S.tree_for(t, 2)) for t in R.split_inner(sig)]
             ops.append(['signal', {'path': draw(st.sampled_from([path, path, path, '/a/bc', '/a/b/c'])),
                                    'interface': iface, 'member': member, 'sig': sig, 'trees': trees}])
-    return {'signals': sigs, 'path': path, 'ops': ops}
+    return {'signals': sigs, 'path': path, 'ops': ops, 'shadow': draw(st.booleans())}
 
 
 def classify_proxy(case):
@@ -548,6 +579,8 @@ def classify_proxy(case):
             decl = case['signals'][m['interface']].get(m['member'])
             if decl is not None and decl != m['sig']:
                 labels.append('signature_mismatch')
+    if case.get('shadow'):
+        labels.append('second_connection_in_process')
     return nsig > 0 and nsub > 0, sorted(set(labels))
 
 
